@@ -11,9 +11,9 @@ worker() {
   i=0
   for id in "${ids[@]}"; do
     i=$((i+1)); [ $(( i % N )) -eq $k ] || continue
-    if ! git -C $wt apply /verif/refactors/$id.patch.diff 2>/dev/null; then echo "$id: does-not-apply" >> $MX/rows.$k; continue; fi
+    if ! { git -C $wt apply /verif/refactors/$id.patch.diff 2>/dev/null || git -C $wt apply --3way /verif/refactors/$id.patch.diff >/dev/null 2>&1; }; then git -C $wt reset -q --hard; echo "$id: does-not-apply" >> $MX/rows.$k; continue; fi
     res=$(cd /verif && PLV_REPO=$wt PLV_WORK_TAG=-rf$k ./plv multi $ALL 2>&1 | grep -E "^C[0-9]+ (VIOLATION|ERROR)" | cut -c1-160 | tr '\n' ';')
-    git -C $wt checkout -- . ; git -C $wt clean -fdq
+    git -C $wt reset -q --hard; git -C $wt clean -fdq
     echo "$id: ${res:-silent}" >> $MX/rows.$k
   done
   git -C /repo worktree remove --force $wt
